@@ -81,6 +81,10 @@ class SemLock:
         else:
             self._semlock = _SemLock(kind, value, maxvalue, name, unlink_now)
         self.name = name
+        if os.environ.get("LOKY_VERIF") == "1":
+            from .. import _verif
+
+            _verif.point("sem.after_create")
         util.debug(
             f"created semlock with handle {self._semlock.handle} and name "
             f'"{self.name}"'
